@@ -338,6 +338,9 @@ func (c *channel) Close() error {
 		return c.transport.Close()
 	}
 
+	// A transport that is no longer connected (for instance, after the
+	// peer's EOF) may still hold its connection, so release it anyway.
+	_ = c.transport.Close()
 	return nil
 }
 
